@@ -3,7 +3,7 @@ import itertools, json, os
 from bitvec import ev, var_bits, const_bits
 from paths import explore
 from sym import fmt, walk, Sym, const_eval
-from rules.common import path_calls, arg_loc, arg_locs, ret_kind, Anchors
+from rules.common import calls_in_loops, path_calls, arg_loc, arg_locs, ret_kind, Anchors
 from rules.streams import norm, is_call
 from rules import layout
 import stdmodel as SM
@@ -983,6 +983,9 @@ def header_footer(ctx):
                 continue
             ws = [c for c in path_calls(p) if isinstance(c[2], str) and c[2].endswith('io_write_u64_le')]
             ok = len(ws) == 2 and ws[0][3][0] == ('citem', 'raw::VERSION') and ws[1][3][0] == ('param', nt.local_name(2), 2)
+            if not ws and calls_in_loops(nt, lambda c: c.endswith('io_write_u64_le')):
+                ctx.undecided(R, 'header', 'the header words are written from inside a loop (over a list of words): order and content not decided', fn=nt)
+                continue
             ctx.check(R, ok, 'header', 'the header must be u64 VERSION followed by u64 type: %s' % [fmt(w[3][0])[:30] for w in ws], fn=nt)
     fin = [m for m in A.builder_methods() if m.path.endswith('::into_inner')]
     if not fin:
@@ -1005,6 +1008,10 @@ def header_footer(ctx):
             ok_len = a[0] == 'field' and a[2] in lenf
             ok_root = b[0] == 'okof' and is_call(b[1], '::compile') and any(is_call(x, 'pop_root') for x in walk(b[1]))
             ok = ok_len and ok_root
-        ctx.check(R, ok, 'footer', 'the footer must be u64 key count followed by u64 address of the compiled root node: %s' % why, fn=fin)
         ws32 = [c for c in path_calls(p) if isinstance(c[2], str) and c[2].endswith('io_write_u32_le')]
+        if not ws and calls_in_loops(fin, lambda c: c.endswith('io_write_u64_le')):
+            ctx.undecided(R, 'footer', 'the footer words are written from inside a loop (over a list of words): order and content not decided', fn=fin)
+            ctx.check(R, len(ws32) == 1, 'checksum-word', 'the checksum must be one u32 after the footer', fn=fin)
+            continue
+        ctx.check(R, ok, 'footer', 'the footer must be u64 key count followed by u64 address of the compiled root node: %s' % why, fn=fin)
         ctx.check(R, len(ws32) == 1 and ws and ws32[0][0] > ws[-1][0], 'checksum-word', 'the checksum must be one u32 after the footer', fn=fin)
